@@ -110,8 +110,6 @@ def err_name(e):
         return "TypeError"
     if isinstance(e, OverflowError):
         return "OverflowError"
-    if isinstance(e, KeyError):
-        return "ValueError"            # the catalogue's `keyerr` validator: a rejection like any other (the model's error enum is small)
     return type(e).__name__
 
 
